@@ -78,5 +78,44 @@ theorem foldl_ext {σ α : Type} (f g : σ → α → σ) (h : ∀ s a, f s a = 
     List.foldl f init l = List.foldl g init l := by
   rw [show f = g from funext fun s => funext fun a => h s a]
 
+/-! ### `bisect.bisect_right`: the binary search finds the boundary `k` of a list `[?, ≤ x, …, ≤ x, > x, …, > x]`
+(entry 0 is never inspected when the boundary is at least 2: `mid = (lo + hi) // 2 ≥ 1` as long as `hi ≥ 2`) -/
+
+theorem bisectLoop_eq (l : List (Option Int)) (x : Int) (k : Nat) (hk2 : 2 ≤ k)
+    (hlo : ∀ i, 1 ≤ i → i < k → ∃ y, l[i]? = some (some y) ∧ y ≤ x)
+    (hhi : ∀ i, k ≤ i → i < l.length → ∃ y, l[i]? = some (some y) ∧ x < y) :
+    ∀ (fuel lo hi : Nat), hi - lo < fuel → lo ≤ k → k ≤ hi → hi ≤ l.length →
+      Py.bisectLoop l x fuel lo hi = .ok k := by
+  intro fuel
+  induction fuel with
+  | zero => intro lo hi h; omega
+  | succ fuel ih =>
+    intro lo hi hf h1 h2 h3
+    unfold Py.bisectLoop
+    by_cases hlt : lo < hi
+    · rw [if_pos hlt]
+      by_cases hmk : (lo + hi) / 2 < k
+      · obtain ⟨y, hy, hyx⟩ := hlo ((lo + hi) / 2) (by omega) hmk
+        simp only [hy]
+        rw [if_neg (by omega)]
+        exact ih _ _ (by omega) (by omega) h2 h3
+      · obtain ⟨y, hy, hyx⟩ := hhi ((lo + hi) / 2) (by omega) (by omega)
+        simp only [hy]
+        rw [if_pos hyx]
+        exact ih _ _ (by omega) h1 (by omega) (by omega)
+    · rw [if_neg hlt]
+      congr 1
+      omega
+
+/-- `bisect_right(l, x)` on a list whose entries from position 1 on are numbers, `≤ x` before position `k ≥ 2`
+and `> x` from `k` on: the answer is `k`, and entry 0 (a `None`) is never compared -/
+theorem bisectRight_eq_of (l : List (Option Int)) (x : Int) (k : Nat) (hk2 : 2 ≤ k) (hkl : k ≤ l.length)
+    (hlo : ∀ i, 1 ≤ i → i < k → ∃ y, l[i]? = some (some y) ∧ y ≤ x)
+    (hhi : ∀ i, k ≤ i → i < l.length → ∃ y, l[i]? = some (some y) ∧ x < y) :
+    Py.bisectRight l x = .ok (k : Int) := by
+  unfold Py.bisectRight
+  rw [bisectLoop_eq l x k hk2 hlo hhi _ 0 l.length (by omega) (by omega) hkl (Nat.le_refl _)]
+  rfl
+
 end Py
 end Cnfgen
